@@ -23,6 +23,12 @@ CLAIMED["C10"] = ("differential testing against CPython integers (exhaustive bou
 CLAIMED["C12"] = ("exhaustive catalogue enumeration (kind x construct x mutation x alias x exit) against an explicit lock model, with proptest re-sampling for replay",
     "Exploration, exhaustive over the depth<=3 catalogue: every attempt inside an iteration must fail and leave the container intact; the first mutation after any exit must succeed.",
     "The model is the property text; which builtins hold the lock during callbacks was read from the stdlib sources.", "DESIGN.md §5 C12")
+CLAIMED["C08"] = ("differential testing against CPython's argument binding over an enumerated signature x call space, across call paths (direct, via variable, frozen+loaded, partial, host eval_function, native ParametersSpec, can_fill_with_args)",
+    "Exploration with exhaustive enumeration of signatures (<= 4 named parameters quick, 5 thorough) and a strided (quick) or complete (thorough) call list; every call path must produce the binding CPython produces or fail when CPython fails.",
+    "Trusts CPython's binder for the shared def/call syntax; Starlark-only syntax restrictions (one * and one **, order) are respected by the generator.", "DESIGN.md §5 C08")
+CLAIMED["C16"] = ("exhaustive enumeration of type expressions (depth<=1 complete, depth 2 sampled) x value catalogue against a reference denotation from docs/types.md, plus cross-path agreement (isinstance / annotations / eval_type / host TypeCompiled, frozen and unfrozen); random depth-3 types",
+    "Exploration, exhaustive for the enumerated sub-space: every check path must give the documented answer (where the doc settles it) and all paths must agree before and after freezing.",
+    "Reference denotation is hand-written from docs/types.md; undocumented combinations are only checked for path agreement.", "DESIGN.md §5 C16")
 NOT_YET = {}
 
 def main():
